@@ -12,6 +12,7 @@ from mc.compare import proj_eq
 from mc.core import family
 
 SHAPES = [(1,), (2,), (3,), (2, 2), (1, 3)]
+SHAPES_T = SHAPES + [(4,), (2, 3), (3, 1), (2, 1, 2), (1, 1)]
 
 
 def coll_class(G, single):
@@ -130,11 +131,14 @@ def case_ops(ctx, cfg):
             single_cache[spec] = e if e is not None else r
         return single_cache[spec]
 
-    for shape in SHAPES:
+    deep = ctx.tier == "thorough"
+    for shape, stride in [(sh, sd) for sh in (SHAPES_T if deep else SHAPES) for sd in ((1, 2) if deep and int(np.prod(sh)) > 1 else (1,))]:
         m = int(np.prod(shape))
         starts = range(0, N)
         for st in starts:
-            window = [cfgs[(st + t) % N] for t in range(m)]
+            # the elements of the collection are consecutive configurations of the operation's catalogue (thorough: also
+            # every second one, so that other combinations of elements share a collection)
+            window = [cfgs[(st + stride * t) % N] for t in range(m)]
             for mask in masks:
                 is_coll = {collectable[j]: bool(b) for j, b in enumerate(mask)}
                 # specs per position: collection arguments vary over the window, single arguments stay at window[0]
@@ -148,7 +152,7 @@ def case_ops(ctx, cfg):
                 if not all(C.valid_spec(op, s) for s in specs):
                     ctx.skipped += 1
                     continue
-                ctx.state((name, shape, st, mask))
+                ctx.state((name, shape, st, mask, stride))
                 singles = [single(s) for s in specs]
                 res, e = ctx.call(op.fn, G, *args)
                 ctx.trace(m)
@@ -162,13 +166,13 @@ def case_ops(ctx, cfg):
                         continue
                     continue
                 if e is not None:
-                    fail_once(f"{name}:{layout}:{'length-1' if m == 1 else 'shape' + str(len(shape)) + 'd'}:{type(e).__name__}", name, inputs, "element-wise results", e)
+                    fail_once(f"{name}:{layout}:{'length-1' if shape == (1,) else 'shape' + str(len(shape)) + 'd'}:{type(e).__name__}", name, inputs, "element-wise results", e)
                     continue
                 for t, idx in enumerate(np.ndindex(*shape)):
                     why = elem_same(op.res, singles[t], res, idx, G)
                     if why:
                         code = "collection-class" if why.startswith("collection class") else "result-shape" if "shape" in why else "value"
-                        fail_once(f"{name}:{layout}:{'length-1' if m == 1 else 'shape' + str(len(shape)) + 'd'}:{code}", name, {**inputs, "position": idx}, singles[t] if not hasattr(singles[t], "array") else singles[t].array, why)
+                        fail_once(f"{name}:{layout}:{'length-1' if shape == (1,) else 'shape' + str(len(shape)) + 'd'}:{code}", name, {**inputs, "position": idx}, singles[t] if not hasattr(singles[t], "array") else singles[t].array, why)
                         break
 
 
